@@ -8,16 +8,16 @@ ContainerAmount = Union[int, float]
 
 class ContainerPut(Put):
     def __init__(self, container: 'Container', amount: ContainerAmount):
-        if amount <= 0:
-            raise ValueError(f'amount(={amount}) must be > 0.')
+        if not 0 < amount < float('inf'):  # also refuses NaN
+            raise ValueError(f'amount(={amount}) must be > 0 and finite.')
         self.amount = amount
         super().__init__(container)
 
 
 class ContainerGet(Get):
     def __init__(self, container: 'Container', amount: ContainerAmount):
-        if amount <= 0:
-            raise ValueError(f'amount(={amount}) must be > 0.')
+        if not 0 < amount < float('inf'):  # also refuses NaN
+            raise ValueError(f'amount(={amount}) must be > 0 and finite.')
         self.amount = amount
         super().__init__(container)
 
@@ -40,11 +40,11 @@ class Container(BaseResource):
         init: ContainerAmount = 0,
     ):
         # Rasei a ValueError for invalid conditions
-        if capacity <= 0:
+        if not capacity > 0:  # the negated forms also refuse NaN
             raise ValueError('"capacity" must be > 0.')
-        if init < 0:
+        if not init >= 0:
             raise ValueError('"init" must be >= 0.')
-        if init > capacity:
+        if not init <= capacity:
             raise ValueError('"init" must be <= "capacity".')
 
         super().__init__(env, capacity)
